@@ -126,6 +126,7 @@ def ref_flag(s, f):
 
 
 def check(ctx):
+    lib_mux.canon_roles(ctx.prog, 'libp2p_webrtc_utils')
     prog = ctx.prog
     fn = {n: ctx.body(W, r"^libp2p_webrtc_utils::stream::state::State::%s$" % n) for n in
           ("handle_inbound_flag", "write_closed", "close_write_message_sent", "read_closed", "close_read_message_sent", "read_flags_in_async_write",
@@ -292,15 +293,17 @@ def check(ctx):
     if not rb:
         raise mir.RuleError("Stream::poll_read: no read_barrier call")
     okr = lib_mux.ok_edges(pr, rb[0])
-    io = pr.call_sites(r"^libp2p_webrtc_utils::stream::io_poll_next$") + pr.call_sites(r"bytes::Bytes::split_to$")
+    prh = lib_mux.inline_view(prog, pr)       # single-use private helpers of poll_read read as if inline
+    io = lib_mux.scoped_sites(prog, pr, r"^libp2p_webrtc_utils::stream::io_poll_next$", prh) + lib_mux.scoped_sites(prog, pr, r"bytes::Bytes::split_to$", prh)
     ctx.floor("stream", "socket read + buffer hand-out in poll_read", io, 2)
     flags = pr.call_sites(r"stream::state::State::handle_inbound_flag$")
     ctx.floor("stream", "handle_inbound_flag in poll_read", flags, 2)
-    for s in io:
-        nm = mir.strip_generics(pr.site_expr(s)[1]).split("::")[-1]
-        ctx.ob("stream", "poll_read: %s only after read_barrier returned Ok" % nm, bool(okr) and pr.must_pass_edges(s.bb, okr), s.loc(), "dominated by the `?`-Continue edge of read_barrier")
+    for s, owner, via in io:
+        nm = mir.strip_generics(owner.site_expr(s)[1]).split("::")[-1]
+        at = s if via is None else via            # where the effect happens in poll_read itself
+        ctx.ob("stream", "poll_read: %s only after read_barrier returned Ok" % nm, bool(okr) and pr.must_pass_edges(at.bb, okr), s.loc(), "dominated by the `?`-Continue edge of read_barrier")
         back = pr.reachable([x for f in flags for x in pr.succ[f.bb]], blocked_nodes=[rb[0].bb])
-        ctx.ob("stream", "read_barrier re-evaluated after every inbound flag (before %s)" % nm, s.bb not in back, s.loc(), "no path from handle_inbound_flag to this site avoids read_barrier")
+        ctx.ob("stream", "read_barrier re-evaluated after every inbound flag (before %s)" % nm, at.bb not in back, s.loc(), "no path from handle_inbound_flag to this site avoids read_barrier")
     ctx.ob("stream", "poll_read checks the barrier on the live state", NS(render(pr.site_expr(rb[0])[2][0])) == "this.state", rb[0].loc(), render(pr.site_expr(rb[0])[2][0]))
     # poll_write
     pw = lib_mux.canon_args(ctx.body(W, r"^libp2p_webrtc_utils::<stream::Stream as futures::AsyncWrite>::poll_write$"), ["self", "cx", "buf"])
@@ -343,24 +346,25 @@ def check(ctx):
         "buf": (1, "read_buffer.split_to(n), n <= read_buffer.len()"),
     }, seen_b)
     md = prog.const(W, r"stream::MAX_DATA_LEN$").get("v")
+    PRS = [pr] + [h for _, h in prh]
     mir.RENDER_MAX[0], old = 40, mir.RENDER_MAX[0]
     try:
         # n = the amount split off the read buffer; must be min(read_buffer.len(), buf.len())
         N = None
         for b, k, det, s in inv:
-            if b is pr and k == "buf":
-                e = pr.site_expr(s)
+            if b in PRS and k == "buf":
+                e = b.site_expr(s)
                 N = NS(render(e[2][1]))
                 isn = lib_mux.is_min_of(e[2][1], lambda x: NS(render(x)) == "bytes::Bytes::len(this.read_buffer)", lambda x: render(x) == "core::slice::len(buf)")
                 ctx.ob("nopanic", "poll_read copy length is min(read_buffer.len(), buf.len())", isn and NS(render(e[2][0])) == "this.read_buffer", s.loc(), NS(render(e))[-150:])
         for b, k, det, s in inv:
             r = NS(render(b.site_expr(s))) if s.si is None else ""
-            if b is pr and k == "buf":
+            if b in PRS and k == "buf":
                 pass
-            elif b is pr and k == "index":
+            elif b in PRS and k == "index":
                 ok = N is not None and (r in ("core::slice::index::index_mut(buf, std::ops::Range::Range{start: 0, end: %s})" % N, "core::slice::index::index_mut(buf, std::ops::RangeTo::RangeTo{end: %s})" % N) or r.endswith("std::ops::RangeFull::RangeFull{})"))
                 ctx.ob("nopanic", "poll_read slices buf[0..n] and data[..] only", ok, s.loc(), r[-120:])
-            elif b is pr and k == "slice":
+            elif b in PRS and k == "slice":
                 ctx.ob("nopanic", "poll_read copies n bytes into buf[0..n]", N is not None and ("end: %s})" % N) in r and ("split_to(this.read_buffer, %s)" % N) in r, s.loc(), r[-100:])
             elif b is pw and k == "index":
                 e = b.site_expr(s)
